@@ -26,7 +26,7 @@ var c02Variants = []string{"plain", "then-skip", "then-invalid-draw", "skip-in-c
 func c02Scenarios(cfg runCfg) []Scenario {
 	var out []Scenario
 	i := 0
-	reps := cfg.n(2, 20)
+	reps := cfg.n(2, 100)
 	for rep := 0; rep < reps; rep++ {
 		for k := 0; k < nFailKinds; k++ {
 			for _, ctx := range c02Contexts {
@@ -56,7 +56,7 @@ func c02Scenarios(cfg runCfg) []Scenario {
 							}
 						case "body-skip":
 							// the callback that registered the falsifying cleanup ends by skipping: the cleanup still runs and still counts
-							if ctx != "cleanup-body" && ctx != "cleanup-action" && ctx != "cleanup-custom" {
+							if (ctx != "cleanup-body" && ctx != "cleanup-action" && ctx != "cleanup-custom") || pos == "late-step" {
 								continue
 							}
 						case "deferred-skip":
@@ -75,7 +75,7 @@ func c02Scenarios(cfg runCfg) []Scenario {
 		}
 	}
 	// skip-only programs never fail (unless the budget is exhausted)
-	for j := 0; j < cfg.n(60, 10); j++ {
+	for j := 0; j < cfg.n(60, 50); j++ {
 		if cfg.mine(i) {
 			out = append(out, Scenario{Family: "skip-only", Seed: mix(cfg.seed, 2, 9, uint64(j))})
 		}
